@@ -6,6 +6,7 @@ import (
 	"go/token"
 	"go/types"
 	"sort"
+	"strings"
 
 	"elaverif/ssau"
 
@@ -93,8 +94,8 @@ func runC10(c *Ctx) {
 			return cl != nil && hay(cl.Call.Args[0]) && needle(cl.Call.Args[1])
 		}
 	}
-	isHeaderIdx := isIndexOf(isScriptStr, isMarkerStr)
-	isRootIdx := isIndexOf(isScriptStr, isRootStr)
+	isHeaderIdx := viaHelperResult(isIndexOf(isScriptStr, isMarkerStr))
+	isRootIdx := viaHelperResult(isIndexOf(isScriptStr, isRootStr))
 	bs := G1Opt{BoolSuccess: true}
 
 	// (a) parent coinbase under the parent merkle root
@@ -506,4 +507,56 @@ func (c *Ctx) nonNegIndex(v ssa.Value, in *ssa.Function, depth int) (bool, strin
 		return true, "all phi inputs non-negative"
 	}
 	return false, fmt.Sprintf("value %s is not recognised as non-negative", v)
+}
+
+// viaHelperResult lifts a role predicate over values to results of small repository helpers: the value also has
+// the role when it is the result of a helper (at most 12 blocks) every non-constant return of which, in that result
+// position and with the helper's parameters standing for the call's arguments, has the role.
+func viaHelperResult(pred func(ssa.Value) bool) func(ssa.Value) bool {
+	var lifted func(v ssa.Value) bool
+	depth := 0
+	lifted = func(v ssa.Value) bool {
+		if pred(v) {
+			return true
+		}
+		u := ssau.Unwrap(v)
+		idx := 0
+		var cl *ssa.Call
+		if e, ok := u.(*ssa.Extract); ok {
+			if c2, ok := e.Tuple.(*ssa.Call); ok {
+				cl, idx = c2, e.Index
+			}
+		} else if c2, ok := u.(*ssa.Call); ok {
+			cl = c2
+		}
+		if cl == nil || depth >= 2 {
+			return false
+		}
+		h := cl.Call.StaticCallee()
+		if h == nil || h.Pkg == nil || len(h.Blocks) == 0 || len(h.Blocks) > 12 || !strings.HasPrefix(h.Pkg.Pkg.Path(), "github.com/elastos/Elastos.ELA") {
+			return false
+		}
+		all, any := true, false
+		depth++
+		ssau.WithParamSubst(cl, func() {
+			for _, ret := range ssau.Returns(h) {
+				if idx >= len(ret.Results) {
+					all = false
+					continue
+				}
+				r := ret.Results[idx]
+				if _, isK := r.(*ssa.Const); isK {
+					continue
+				}
+				if lifted(r) {
+					any = true
+				} else {
+					all = false
+				}
+			}
+		})
+		depth--
+		return all && any
+	}
+	return lifted
 }
